@@ -18,7 +18,7 @@ enum OpKind {
   OK_ERR_COPY, OK_ERR_MATCH, OK_ERR_PROP, OK_ERR_CLEAR,
   OK_CA_INIT, OK_CA_ADD, OK_CA_READ, OK_CA_GET, OK_CA_LIST, OK_CA_FILL,
   OK_CR_COPY, OK_CR_MUT, OK_CR_MATH, OK_ATOMFAC,
-  OK_FREE, OK_INIT, OK_DEPRECATED,
+  OK_FREE, OK_INIT, OK_DEPRECATED, OK_ERR_NEW,
   OK_N
 };
 extern const char* const kOpNames[OK_N];
@@ -57,7 +57,7 @@ struct Op {
   int kind = OK_Q;
   std::string fn;      // OK_Q: function name; OK_CR_MATH: which; OK_DEPRECATED: which
   int i[4] = {0, 0, 0, 0};
-  double d[6] = {0, 0, 0, 0, 0, 0};
+  double d[12] = {0, 0, 0, 0, 0, 0, 0, 0, 0, 0, 0, 0};
   std::string s;
   bool snull = false;
   int slot = 1;        // 1: fresh empty error slot, 0: NULL
@@ -101,7 +101,7 @@ struct GenCfg {
   bool probes = false;            // purity
   bool no_oob_crystal_Z = false;  // quarantine helper
 };
-struct QueryDef { const char* name; void* fn; char ret; const char* shape; int shape_id; const char* cls[6]; };
+struct QueryDef { const char* name; void* fn; char ret; const char* shape; int shape_id; const char* cls[14]; };
 extern const QueryDef g_queries[];
 extern const int g_nqueries;
 const QueryDef* query_find(const char* name);
